@@ -45,3 +45,62 @@ claim("C03", "Coq refinement proof Model/Blend.v = Spec/AseRef.v (transcribed As
       "lattices and random pixels for every mode, comparing implementation = model = extracted AseRef on every pixel and recording hsl_guard on every HSL pixel.",
       "Partial: HSL bit-exactness is proved up to hsl_guard (no float error analysis). Spec/AseRef.v is trusted as the meaning of Aseprite's blend functions (parts transcribed from memory of upstream blend_funcs.cpp, see DESIGN.md Appendix E). Print Assumptions lists only primitive float/int63 operations.",
       "DESIGN.md section 5, C03")
+claim("C02", "Coq per-pixel refinement proof of the renderer model against a declarative composition formula + pixel correspondence run",
+      "Theorems C02_compose / C02_compose_loaded (for every file the loader accepts and every frame, the rendered image has the canvas dimensions and each "
+      "pixel equals spec_pixel: a fold over the layer ids in order that blends the (link-resolved) cel pixel of each visible layer with the layer's mode and "
+      "mul_un8(layer opacity, cel opacity), raw cels in the three formats and tilemap cels), C02_uncovered, C02_order / C02_order_image (cel chunk order does not "
+      "matter), C02_write_raw / C02_write_tilemap (per-pixel characterisation of the two rasterisers with clipping); for all inputs, no size bound. The check "
+      "re-proves them and compares model and implementation frame images on structured sprites (all modes, opacities, hidden groups, offsets at the i16 extremes) "
+      "plus independent Python oracles (dimensions, uncovered pixels, single-visible-cel frames).",
+      "Modelled, not verified: Model/Render.v against src/file.rs (tied by the pixel correspondence run); image::RgbaImage as a width/height/pixel map.",
+      "DESIGN.md section 5, C02")
+claim("C04", "Coq proof that every Panic site of the loader model is unreachable on byte input + boundary-corruption correspondence run",
+      "Theorems C04_total / C04_no_panic / C04_parse_total / C04_validate_total: for every inflate function and every byte string the model's loader returns a "
+      "sprite or an error value; all index, assert, overflow and unwrap sites of parse.rs, cel.rs, layer.rs, tileset.rs, palette.rs as modelled (sites 0, 101-105) "
+      "are unreachable; termination is by construction (structural recursion on the request tree, binary loop counters). The check re-proves them and loads ~27 000 "
+      "malformed inputs per quick run (exhaustive single-field boundary corruption, multi-field corruption, chunk edits, truncations, hostile shapes) in the dev and "
+      "relchk builds on a 2 MiB thread under a 2 GiB address-space limit, comparing the outcome class with the model.",
+      "Partial: stack depth and allocator exhaustion are runtime facts observed on the implementation only; the model contributes that loading has no input-dependent recursion. The Panic inventory (DESIGN.md Appendix B) is hand-made and tied to the code by the corruption run.",
+      "DESIGN.md section 5, C04")
+claim("C05", "Coq invariant proof (validate establishes Valid; every accessor is total under Valid) + full API walk on every loadable corrupted input",
+      "Theorems C05_valid (load Ok implies the invariant Valid: cels at their own layer index below the layer count, pixel counts = w x h, palette-complete indexed "
+      "pixels, tile ids below the tile count, tileset pixel count = count x tile area, tile sizes >= 1, link targets exist and are not links, parents below children), "
+      "C05_frame_image / C05_cel_image (Ok with the canvas dimensions, or only the blend-internal site 302), C05_*_plain (no residual site for the 15 non-HSL modes, "
+      "through C17_range_int / C17_range_soft), C05_tilemap, C05_tile_lookup_total (any Z coordinates), C05_tile_image, C05_tileset_image, C05_layers, C05_cels, "
+      "C05_struct, C05_walk (the whole observation walk); the check re-proves them and runs the complete public API walk (including Debug formatting) on every "
+      "input of the corruption stream that loads, in dev and relchk builds, with full observation equality against the model.",
+      "Partial: for the four HSL modes rendering totality is conditional on the float range guard (same gap as C17). Debug formatting and allocator exhaustion on documented-size results are observed, not modelled.",
+      "DESIGN.md section 5, C05")
+claim("C06", "Coq per-pixel proof of the cel image model (three pixel formats, links, absent cels) + independent Python pixel oracle",
+      "Theorems C06_cel_pixels / C06_cel_pixels_loaded (for every loaded file and cel: canvas dimensions and each pixel = cel_spec_pixel, i.e. the stored pixel at the "
+      "offset, clipped, with alpha scaled by mul_un8(layer, cel opacity); transparent elsewhere), C06_rgba / C06_gray / C06_indexed (format conversion incl. the "
+      "transparent-index/background rule), C06_empty, C06_linked, C06_over_transparent (every mode over a transparent backdrop yields the source with scaled alpha); "
+      "the check re-proves them, compares model and implementation cel observations and checks every cel image against a Python oracle computed from the generator's sprite.",
+      "Modelled, not verified: Model/Render.v (cel_image, clone_as_rgba) against src/file.rs, src/pixel.rs.",
+      "DESIGN.md section 5, C06")
+claim("C08", "Coq proofs relating the three tilemap views (lookup, image, tile images) + view-consistency correspondence run",
+      "Theorems C08_size (ceil division), C08_offsets, C08_lookup (stored id inside the stored area, 0 outside, for all integer coordinates), C08_tile_image_dims, "
+      "C08_tileset_stacked, C08_tilemap_image, C08_image_lookup (each canvas pixel of the tilemap image is the looked-up tile's pixel with scaled alpha, transparent "
+      "outside the stored area, for tile-aligned offsets); the check re-proves them and checks the same relations on the implementation's own output plus model equality.",
+      "Modelled, not verified: tilemap_of / tilemap_tile / tile_image / tileset_image models against src/file.rs, src/tilemap.rs, src/tileset.rs.",
+      "DESIGN.md section 5, C08")
+claim("C10", "Coq invariant proof over the chunk-event state machine (owner/window rule) lifted to the loader + exhaustive chunk-sequence run",
+      "Theorems C10_context_invariant, C10_attach (after any successful fold of chunk events every entity's user data is the last record of the window the "
+      "declarative rule assigns to it; entities owning no record report none), C10_frame / C10_frame_rest (a record changes its owner and nothing else), "
+      "C10_ignorable, C10_flags, C10_load (the same statement about the loaded file for every byte string that loads); the check re-proves them and runs every "
+      "admissible chunk sequence up to length 4 (quick) / 5 (thorough) plus random ones against a Python window oracle and the model.",
+      "Modelled, not verified: ParseInfo state machine model (Model/Parse.v) against src/parse.rs.",
+      "DESIGN.md section 5, C10")
+claim("C15", "Coq refusal lemmas per decoder lifted through the loader factorisation (framing + assembly) + feature-switch run at every position",
+      "Theorems C15_propagation (a successful load implies every visited chunk was accepted by its decoder) and one loader-level theorem per feature "
+      "(C15_pixel_ratio, C15_color_depth, C15_layer_type, C15_blend_mode, C15_cel_type, C15_bits_per_tile, C15_anim_direction, C15_icc_profile, C15_fixed_gamma, "
+      "C15_profile_type, C15_external_tileset): if the header or any visited chunk uses the feature, load is not Ok, wherever the chunk sits; the check re-proves "
+      "them and switches each feature on at every position of generated sprites.",
+      "Modelled, not verified: framing and decoder models against src/parse.rs and the chunk parsers.",
+      "DESIGN.md section 5, C15")
+claim("C19", "Coq proofs that cel accessors depend only on (frame, layer) and that single-cel frames equal the cel image + three-route comparison run",
+      "Theorems C19_routes / C19_accessors_agree (in the model the three Rust constructors are one function of (frame, layer), so agreement of the routes is carried "
+      "by the correspondence run, which compares the three real routes field by field on non-square frame/layer counts), C19_single (a frame with exactly one visible "
+      "cel renders that cel's image), C19_tilemap_image; the check re-proves them and compares the routes on the implementation.",
+      "The route argument-order part of the property is decided by the correspondence run, not by the theorem (stated in DESIGN.md).",
+      "DESIGN.md section 5, C19")
